@@ -346,6 +346,7 @@ type bodyT struct {
 	Height   int64  // UploadUserSmartContract.BlockHeight
 	Retries  uint32
 	NoFees   bool // Fees == nil: no transaction matches such a message (VerifyAgainstTX used to dereference it)
+	Chain    int  // index of the chain whose queue holds the message (0 = the history's first chain)
 }
 
 func pad32(b []byte) [32]byte {
@@ -387,6 +388,13 @@ func (b *bodyT) coq() string {
 	add(fKey, zu(b.Key))
 	if b.NoFees && (b.Kind == kSLC || b.Kind == kUploadUser) {
 		add(101, zi(1))
+	}
+	if b.Kind == kUploadUser { // what the follow-ups look the deployment record up by, and the retry counter
+		add(102, zi(b.Height))
+		add(103, zi(int64(b.Retries)))
+	}
+	if b.Chain != 0 {
+		add(104, zi(int64(b.Chain)))
 	}
 	return emit.Pair(emit.ZI(int64(b.Kind)), emit.ZI(addrID(common.HexToAddress(b.Relayer))), emit.List(vals))
 }
@@ -917,6 +925,7 @@ func partA(t *testing.T, run *emit.Run, n int) {
 var valCodec = authcodec.NewBech32Codec(chainparams.ValidatorAddressPrefix)
 
 const chainName = "c07-chain"
+const chainNameB = "c07-chain-b" // the roll-out scenario's second chain
 
 type hval struct {
 	addr sdk.ValAddress
@@ -930,6 +939,8 @@ type henv struct {
 	evm   *evmkeeper.Keeper
 	vals  []hval
 	queue string
+	chains []string // chain reference ids, chains[0] = chainName
+	queues []string // their turnstone queues, queues[0] = queue
 	snaps []uint64 // snapshot ids
 	// the current snapshot as VerifyEvidence weighs with it: share per validator index, recorded total
 	shares  []int64
@@ -974,12 +985,16 @@ func (e *henv) setValidator(i int, tokens int64) error {
 	if err := e.f.SlashingKeeper.SetValidatorSigningInfo(e.ctx, cons, slashingtypes.NewValidatorSigningInfo(cons, 0, 0, time.Unix(0, 0), false, 0)); err != nil {
 		return err
 	}
-	fs := &treasurytypes.RelayerFeeSetting{ValAddress: valAddr(i).String(),
-		Fees: []treasurytypes.RelayerFeeSetting_FeeSetting{{Multiplicator: sdkmath.LegacyMustNewDecFromStr("1.10"), ChainReferenceId: chainName}}}
+	fs := &treasurytypes.RelayerFeeSetting{ValAddress: valAddr(i).String()}
+	for _, c := range e.chains {
+		fs.Fees = append(fs.Fees, treasurytypes.RelayerFeeSetting_FeeSetting{Multiplicator: sdkmath.LegacyMustNewDecFromStr("1.10"), ChainReferenceId: c})
+	}
 	return e.f.TreasuryKeeper.SetRelayerFee(e.ctx, valAddr(i), fs)
 }
 
-func newEnv(t *testing.T, r *rand.Rand, live bool) *henv {
+func newEnv(t *testing.T, r *rand.Rand, live bool) *henv { return newEnvChains(t, r, live, false) }
+
+func newEnvChains(t *testing.T, r *rand.Rand, live bool, two bool) *henv {
 	f := helper.InitFixture(ginkgo.GinkgoT())
 	e := &henv{f: f, ctx: f.Ctx.WithLogger(log.NewNopLogger()).WithBlockHeight(10).WithBlockTime(time.Unix(1_700_000_000, 0).UTC())}
 	// the evm keeper the consensus end-blocker really uses; metrix listens on it as in app.go
@@ -993,6 +1008,11 @@ func newEnv(t *testing.T, r *rand.Rand, live bool) *henv {
 	}
 	e.evm.AddMessageConsensusAttestedListener(&f.MetrixKeeper)
 	e.queue = consensustypes.Queue(evmtypes.ConsensusTurnstoneMessage, xchain.Type("evm"), xchain.ReferenceID(chainName))
+	e.chains, e.queues = []string{chainName}, []string{e.queue}
+	if two {
+		e.chains = append(e.chains, chainNameB)
+		e.queues = append(e.queues, consensustypes.Queue(evmtypes.ConsensusTurnstoneMessage, xchain.Type("evm"), xchain.ReferenceID(chainNameB)))
+	}
 	must := func(err error) {
 		if err != nil {
 			t.Helper()
@@ -1003,6 +1023,9 @@ func newEnv(t *testing.T, r *rand.Rand, live bool) *henv {
 	must(err)
 	must(e.evm.SetAsCompassContract(e.ctx, sc))
 	must(e.evm.AddSupportForNewChain(e.ctx, chainName, 4242, 1, "0xbeef", big.NewInt(1)))
+	if two {
+		must(e.evm.AddSupportForNewChain(e.ctx, chainNameB, 4243, 1, "0xbeef", big.NewInt(1)))
+	}
 	nv := 4
 	for i := 0; i < nv; i++ {
 		must(e.setValidator(i, []int64{40, 30, 20, 10}[i]*1_000_000))
@@ -1010,8 +1033,11 @@ func newEnv(t *testing.T, r *rand.Rand, live bool) *henv {
 		must(err)
 		hv := hval{addr: valAddr(i), key: key, eth: crypto.PubkeyToAddress(key.PublicKey)}
 		e.vals = append(e.vals, hv)
-		must(f.ValsetKeeper.AddExternalChainInfo(e.ctx, hv.addr, []*valsettypes.ExternalChainInfo{{ChainType: "evm", ChainReferenceID: chainName,
-			Address: hv.eth.Hex(), Pubkey: hv.eth.Bytes()}}))
+		var infos []*valsettypes.ExternalChainInfo
+		for _, c := range e.chains { // one account for all chains
+			infos = append(infos, &valsettypes.ExternalChainInfo{ChainType: "evm", ChainReferenceID: c, Address: hv.eth.Hex(), Pubkey: hv.eth.Bytes()})
+		}
+		must(f.ValsetKeeper.AddExternalChainInfo(e.ctx, hv.addr, infos))
 	}
 	f.MetrixKeeper.UpdateUptime(e.ctx)
 	for k := 0; k < 2; k++ {
@@ -1091,21 +1117,24 @@ type qmsg struct {
 }
 
 func (e *henv) queued(t *testing.T) []qmsg {
-	ms, err := e.f.ConsensusKeeper.GetMessagesFromQueue(e.ctx, e.queue, 0)
-	if err != nil {
-		t.Fatal(err)
-	}
 	var out []qmsg
-	for _, m := range ms {
-		cm, err := m.ConsensusMsg(e.f.Codec)
+	for ci, qn := range e.queues {
+		ms, err := e.f.ConsensusKeeper.GetMessagesFromQueue(e.ctx, qn, 0)
 		if err != nil {
 			t.Fatal(err)
 		}
-		b, ok := projectBody(cm.(*evmtypes.Message))
-		if !ok {
-			t.Fatalf("unknown action in queue")
+		for _, m := range ms {
+			cm, err := m.ConsensusMsg(e.f.Codec)
+			if err != nil {
+				t.Fatal(err)
+			}
+			b, ok := projectBody(cm.(*evmtypes.Message))
+			if !ok {
+				t.Fatalf("unknown action in queue")
+			}
+			b.Chain = ci
+			out = append(out, qmsg{m.GetId(), m, b})
 		}
-		out = append(out, qmsg{m.GetId(), m, b})
 	}
 	sort.Slice(out, func(i, j int) bool { return out[i].id < out[j].id })
 	return out
@@ -1125,15 +1154,25 @@ type facts struct {
 	deploy      map[uint64]string // contract id -> deployment status
 	active      uint64
 	current     uint64 // id of the current snapshot
-	user        map[uint64]string // user contract id -> deployment status on the chain
+	user        map[uint64]int // user contract id -> number of its deployment records on the chain that are ACTIVE
 }
 
-func (e *henv) facts(t *testing.T) facts {
-	f := facts{snapOnChain: map[uint64]int{}, deploy: map[uint64]string{}, user: map[uint64]string{}}
+// one reading per chain
+func (e *henv) facts(t *testing.T) []facts {
+	var out []facts
+	for ci := range e.chains {
+		out = append(out, e.factsOf(t, ci))
+	}
+	return out
+}
+
+func (e *henv) factsOf(t *testing.T, ci int) facts {
+	chain := e.chains[ci]
+	f := facts{snapOnChain: map[uint64]int{}, deploy: map[uint64]string{}, user: map[uint64]int{}}
 	for id := uint64(1); id <= e.snaps[len(e.snaps)-1]+3; id++ {
 		if sn, err := e.f.ValsetKeeper.FindSnapshotByID(e.ctx, id); err == nil && sn != nil {
 			for _, c := range sn.Chains {
-				if c == chainName {
+				if c == chain {
 					f.snapOnChain[id]++
 				}
 			}
@@ -1145,28 +1184,33 @@ func (e *henv) facts(t *testing.T) facts {
 		t.Fatal(err)
 	}
 	for _, d := range ds {
-		if d.ChainReferenceID == chainName {
+		if d.ChainReferenceID == chain {
 			f.deploy[d.SmartContractID] = d.Status.String()
 		}
 	}
-	if ci, err := e.evm.GetChainInfo(e.ctx, chainName); err == nil {
+	if ci, err := e.evm.GetChainInfo(e.ctx, chain); err == nil {
 		f.active = ci.ActiveSmartContractID
 	}
-	for _, v := range e.vals {
-		cs, _ := e.evm.UserSmartContracts(e.ctx, v.addr.String())
-		for _, c := range cs {
-			for _, d := range c.Deployments {
-				if d.ChainReferenceId == chainName {
-					f.user[c.Id] = d.Status.String()
-				}
-			}
+	for _, r := range e.userRecords() {
+		if r.chain == int64(ci) && r.status == 1 {
+			f.user[uint64(r.cid)]++
 		}
 	}
 	return f
 }
 
-// success follow-ups visible between two readings: (kind, key)
-func diffFacts(a, b facts) [][2]int64 {
+// success follow-ups visible between two readings: (kind, key + 1000 * chain)
+func diffFacts(as, bs []facts) [][2]int64 {
+	var out [][2]int64
+	for ci := range as {
+		for _, x := range diffFactsChain(as[ci], bs[ci]) {
+			out = append(out, [2]int64{x[0], x[1] + 1000*int64(ci)})
+		}
+	}
+	return out
+}
+
+func diffFactsChain(a, b facts) [][2]int64 {
 	var out [][2]int64
 	// a compass upload that is the chain's first deployment also lists the current snapshot on the chain
 	first := 0
@@ -1197,8 +1241,8 @@ func diffFacts(a, b facts) [][2]int64 {
 			out = append(out, [2]int64{kHandover, int64(id)})
 		}
 	}
-	for id, st := range b.user {
-		if st == evmtypes.UserSmartContract_Deployment_ACTIVE.String() && a.user[id] != st {
+	for id, n := range b.user {
+		for k := a.user[id]; k < n; k++ {
 			out = append(out, [2]int64{kUploadUser, int64(id)})
 		}
 	}
@@ -1280,22 +1324,24 @@ func (e *henv) attestOne(t *testing.T, ctx sdk.Context, id uint64) (cls int, err
 	if err != nil {
 		t.Fatal(err)
 	}
-	q, err := e.f.ConsensusKeeper.VerifC07Queue(ctx, e.queue)
-	if err != nil {
-		t.Fatal(err)
-	}
-	m, err := q.GetMsgByID(ctx, id)
-	if err != nil {
-		return 0, nil // no such message: the end-blocker would not see it either
-	}
-	for _, s := range sq {
-		if s.QueueTypeName == e.queue {
-			err = s.ProcessMessageForAttestation(ctx, q, m)
-			return classify(err), err
+	for _, qn := range e.queues {
+		q, err := e.f.ConsensusKeeper.VerifC07Queue(ctx, qn)
+		if err != nil {
+			t.Fatal(err)
 		}
+		m, err := q.GetMsgByID(ctx, id)
+		if err != nil {
+			continue
+		}
+		for _, s := range sq {
+			if s.QueueTypeName == qn {
+				err = s.ProcessMessageForAttestation(ctx, q, m)
+				return classify(err), err
+			}
+		}
+		t.Fatal("turnstone queue not supported")
 	}
-	t.Fatal("turnstone queue not supported")
-	return 0, nil
+	return 0, nil // no such message: the end-blocker would not see it either
 }
 
 type obsT struct {
@@ -1304,6 +1350,42 @@ type obsT struct {
 	processed []int64
 	relay     [][2]int64
 	effects   [][2]int64
+	urecs     []urecT
+}
+
+// urecT: one deployment record of a user contract: (contract id, chain, created, updated, status 0 in flight / 1 active / 2 error)
+type urecT struct {
+	cid, chain, created, updated, status int64
+	addr                                 string
+}
+
+func coqUrecs(l []urecT) string {
+	s := make([]string, len(l))
+	for i, x := range l {
+		s[i] = emit.Pair(emit.ZI(x.cid), emit.ZI(x.chain), emit.ZI(x.created), emit.ZI(x.updated), emit.ZI(x.status))
+	}
+	return emit.List(s)
+}
+
+// the deployment records of all user contracts, by contract id, per contract in store order
+func (e *henv) userRecords() []urecT {
+	var out []urecT
+	for _, v := range e.vals {
+		cs, _ := e.evm.UserSmartContracts(e.ctx, v.addr.String())
+		for _, c := range cs {
+			for _, d := range c.Deployments {
+				ch := int64(-1)
+				for i, n := range e.chains {
+					if d.ChainReferenceId == n {
+						ch = int64(i)
+					}
+				}
+				out = append(out, urecT{int64(c.Id), ch, d.CreatedAtBlockHeight, d.UpdatedAtBlockHeight, int64(d.Status) - 1, d.Address})
+			}
+		}
+	}
+	sort.SliceStable(out, func(i, j int) bool { return out[i].cid < out[j].cid })
+	return out
 }
 
 func (o obsT) coq() string {
@@ -1323,7 +1405,7 @@ func (o obsT) coq() string {
 	for i, x := range o.effects {
 		ef[i] = emit.Pair(emit.ZI(x[0]), emit.ZI(x[1]))
 	}
-	return emit.Pair(emit.ZI(int64(o.res)), emit.List(q), emit.List(p), emit.List(rl), emit.List(ef))
+	return emit.Pair(emit.ZI(int64(o.res)), emit.List(q), emit.List(p), emit.List(rl), emit.List(ef), coqUrecs(o.urecs))
 }
 
 func coqSpawn(bs []*bodyT, ok bool) string {
@@ -1358,6 +1440,8 @@ type history struct {
 	nReject int
 	nextID  uint64 // the id the model will hand out next (0: unknown yet)
 	last    obsT   // the previous step's reading
+	height  int64  // the block height the model knows
+	started bool
 	evmMod  evmmodule.AppModule
 	consMod consensusmodule.AppModule
 }
@@ -1396,13 +1480,40 @@ func (h *history) observe(res int) obsT {
 		}
 		return o.effects[i][1] < o.effects[j][1]
 	})
+	o.urecs = e.userRecords()
 	return o
 }
 
 func (h *history) record(op string, res int) {
+	h.syncHeight()
 	h.last = h.observe(res)
 	h.steps = append(h.steps, emit.Pair(op, h.last.coq()))
 }
+
+// recordKeep: an operation that touches nothing but the user deployment records
+func (h *history) recordKeep(op string) {
+	o := h.last
+	o.res = 0
+	o.urecs = h.e.userRecords()
+	h.last = o
+	h.steps = append(h.steps, emit.Pair(op, o.coq()))
+}
+
+// syncHeight: the model learns the block height the operation just recorded ran at (its state is still the previous reading's)
+func (h *history) syncHeight() {
+	if now := h.e.ctx.BlockHeight(); now != h.height || !h.started {
+		if !h.started {
+			h.started, h.last = true, h.observeBefore()
+		}
+		h.height = now
+		o := h.last
+		o.res = 0
+		h.steps = append(h.steps, emit.Pair(fmt.Sprintf("C07.XHeight %d", now), o.coq()))
+	}
+}
+
+// the reading before the first operation: nothing queued, nothing processed, no records
+func (h *history) observeBefore() obsT { return obsT{} }
 
 // messages that appeared in the queue without the harness having put them there
 func (h *history) spawnedSince(before map[uint64]bool) []*bodyT {
@@ -1433,7 +1544,7 @@ func (h *history) oracle(id uint64, b *bodyT, w winInfo, cls int, vsBefore vset,
 	accepted := cls == 0 && w.kind == 1
 	stateEffect := false
 	for _, x := range eff {
-		if x[0] == int64(b.Kind) && x[1] == int64(b.Key) {
+		if x[0] == int64(b.Kind) && x[1] == int64(b.Key)+1000*int64(b.Chain) {
 			stateEffect = true
 		}
 	}
@@ -1483,6 +1594,7 @@ func (h *history) oracleErrorProof(id uint64, b *bodyT, cls int, sp []*bodyT) {
 		x.Relayer, y.Relayer = "", ""
 		x.NoFees, y.NoFees = false, false
 		x.Fees, y.Fees = [3]uint64{}, [3]uint64{}
+		x.Retries = y.Retries
 		same := n.Retries == b.Retries+1 && x.coq() == y.coq()
 		if !same {
 			bad = "the queued message is not the retry of the failed action"
@@ -1494,6 +1606,50 @@ func (h *history) oracleErrorProof(id uint64, b *bodyT, cls int, sp []*bodyT) {
 	if bad != "" {
 		h.run.Violate("C07:error-proof-follow-up", fmt.Sprintf("message %d (kind %d, retries %d): error proof agreed on, class %d: %s", id, b.Kind, b.Retries, cls, bad), replay)
 	}
+}
+
+// oracleRecords: the success effect of a user contract upload is a write to the deployment record OF THAT MESSAGE --
+// (contract id, chain, the height at which the deployment was put in flight), the first such record.  After attesting the
+// messages ms nothing else may have changed among the user deployment records: not another deployment of the same
+// contract, not another contract's, and nothing at all when no user contract upload was attested.
+func (h *history) oracleRecords(before, after []urecT, ms []*bodyT, ids []uint64) {
+	own := map[int]int{} // index of a record that may change -> index into ms
+	for k, b := range ms {
+		if b.Kind != kUploadUser {
+			continue
+		}
+		for i, r := range before {
+			if _, taken := own[i]; !taken && r.cid == int64(b.Key) && r.chain == int64(b.Chain) && r.created == b.Height {
+				own[i] = k
+				break
+			}
+		}
+	}
+	replay := map[string]any{"part": "B", "seed": h.run.Seed, "history": append([]string{}, h.log...)}
+	if len(before) != len(after) {
+		h.run.Violate("C07:effect-on-another-record", fmt.Sprintf("attesting messages %v changed the NUMBER of user deployment records (%d -> %d)", ids, len(before), len(after)), replay)
+		return
+	}
+	for i := range before {
+		if before[i] == after[i] {
+			continue
+		}
+		if _, ok := own[i]; ok && before[i].cid == after[i].cid && before[i].chain == after[i].chain && before[i].created == after[i].created {
+			continue
+		}
+		h.run.Violate("C07:effect-on-another-record", fmt.Sprintf("attesting messages %v (user uploads: %s) changed the deployment record (contract %d, chain %d, created at %d): status %d -> %d, address %q -> %q -- not the record of any of these messages",
+			ids, describeUploads(ms), before[i].cid, before[i].chain, before[i].created, before[i].status, after[i].status, before[i].addr, after[i].addr), replay)
+	}
+}
+
+func describeUploads(ms []*bodyT) string {
+	var s []string
+	for _, b := range ms {
+		if b.Kind == kUploadUser {
+			s = append(s, fmt.Sprintf("contract %d chain %d put in flight at %d", b.Key, b.Chain, b.Height))
+		}
+	}
+	return strings.Join(s, "; ")
 }
 
 // oracleUnagreed: attestRouter ran on one message for which 2/3 of the shares agree on no transaction
@@ -1646,7 +1802,11 @@ func (h *history) valAddress(i int) sdk.ValAddress {
 func (h *history) submit(id uint64, rp *report, who []int) {
 	var ok []string
 	for _, i := range who {
-		err := h.e.f.ConsensusKeeper.AddMessageEvidence(h.e.ctx, h.valAddress(i), &consensustypes.MsgAddEvidence{Proof: rp.any, MessageID: id, QueueTypeName: h.e.queue})
+		qn := h.e.queue
+		if b := h.known[id]; b != nil {
+			qn = h.e.queues[b.Chain]
+		}
+		err := h.e.f.ConsensusKeeper.AddMessageEvidence(h.e.ctx, h.valAddress(i), &consensustypes.MsgAddEvidence{Proof: rp.any, MessageID: id, QueueTypeName: qn})
 		if err != nil {
 			h.t.Fatalf("AddMessageEvidence: %v", err)
 		}
@@ -1844,7 +2004,7 @@ func runHistory(t *testing.T, run *emit.Run, idx int) {
 				}
 			case kHandover:
 				// hand over to a contract whose deployment waits for it (if any), else to an arbitrary id
-				for id, st := range e.facts(t).deploy {
+				for id, st := range e.factsOf(t, 0).deploy {
 					if st == evmtypes.SmartContractDeployment_WAITING_FOR_ERC20_OWNERSHIP_TRANSFER.String() {
 						b.Key = id
 					}
@@ -1854,7 +2014,12 @@ func runHistory(t *testing.T, run *emit.Run, idx int) {
 				cid, err := e.evm.SaveUserSmartContract(e.ctx, author.String(), &evmtypes.UserSmartContract{Title: "t", AbiJson: "[]", Bytecode: "0x6080", ConstructorInput: "0x"})
 				if err == nil {
 					before := h.ids()
+					nrec := len(e.userRecords())
 					_, derr := e.evm.CreateUserSmartContractDeployment(e.ctx, author.String(), cid, chainName)
+					if len(e.userRecords()) > nrec { // a deployment record was written (also when queueing the message failed afterwards)
+						h.syncHeight()
+						h.recordKeep(fmt.Sprintf("C07.XUserDeploy %d 0", cid))
+					}
 					// the keeper may have queued its own upload message: make it known to the model first
 					h.reconcile(before, fmt.Sprintf("CreateUserSmartContractDeployment (err=%v)", derr))
 					if len(h.ids()) > len(before) { // one upload message per user deployment: the keeper's own is the subject
@@ -2107,39 +2272,7 @@ func runHistory(t *testing.T, run *emit.Run, idx int) {
 			run.Count("B.agreed", fmt.Sprintf("kind=%d status=%d", h.win[m.id].kind, h.win[m.id].status))
 		case op < 95: // attestRouter on one message
 			m, _ := withWinner()
-			b, w := h.known[m.id], h.win[m.id]
-			vs := vset{}
-			if vid := h.vsid[m.id]; vid != 0 {
-				vs, _ = e.snapVS(vid)
-			}
-			was := w.kind == 1 && e.evm.VerifC07IsTxProcessed(e.ctx, w.tx.tx)
-			before, f0 := h.ids(), e.facts(t)
-			cls, err := e.attestOne(t, e.ctx, m.id)
-			eff := diffFacts(f0, e.facts(t))
-			h.effects = append(h.effects, eff...)
-			sp := h.spawnedSince(before)
-			logf("attest id=%d -> class %d (%v) effects=%v spawned=%d", m.id, cls, err, eff, len(sp))
-			run.Count("B.op", "attest")
-			run.Count("B.attest", fmt.Sprintf("kind=%d winner=%d class=%d", b.Kind, w.kind, cls))
-			if w.kind == 1 && w.status == 1 && !was && (cls == 1) == matches(b, m.id, h.gas[m.id], vs, h.sigs[m.id], w.tx.spec) {
-				cm, _ := m.raw.ConsensusMsg(e.f.Codec)
-				t.Logf("DISAGREE id=%d cls=%d kind=%d gas=%d/%d vsid=%d nsigs=%d/%d pad=%v stored=%+v", m.id, cls, b.Kind, h.gas[m.id], m.raw.GetGasEstimate(), h.vsid[m.id], len(h.sigs[m.id]), len(m.raw.GetSignData()), m.raw.GetPublicAccessData(), cm)
-			}
-			h.oracle(m.id, b, w, cls, vs, eff, was)
-			h.oracleUnagreed(m.id, b, w, cls, h.ids()[m.id])
-			if w.kind == 2 {
-				h.oracleErrorProof(m.id, b, cls, sp)
-			}
-			e.checkSnapshot(t)
-			if w.kind == 1 && (cls == 1 || cls == 2) { // refused for good: count what the relayer's metrix record says (observation only:
-				// the record is not one of the success effects the property lists; the model follows the code and X compares it)
-				for _, rr := range h.observe(cls).relay {
-					if rr[0] == int64(m.id) {
-						run.Count("B.relay-record-for-refused-tx", fmt.Sprintf("success=%v", rr[1] == 1))
-					}
-				}
-			}
-			h.record(fmt.Sprintf("C07.XAttest %d %s", m.id, coqSpawn(sp, cls != 4)), cls)
+			h.attestMsg(m)
 		default: // the consensus end-blocker loop
 			h.endBlock(false)
 		}
@@ -2155,6 +2288,390 @@ func runHistory(t *testing.T, run *emit.Run, idx int) {
 	_ = json.Marshal
 }
 
+
+// attestMsg: the real attestRouter on one queued message, every oracle, the step for the model
+func (h *history) attestMsg(m qmsg) int {
+	t, e, run := h.t, h.e, h.run
+	b, w := h.known[m.id], h.win[m.id]
+	vs := vset{}
+	if vid := h.vsid[m.id]; vid != 0 {
+		vs, _ = e.snapVS(vid)
+	}
+	was := w.kind == 1 && e.evm.VerifC07IsTxProcessed(e.ctx, w.tx.tx)
+	before, f0 := h.ids(), e.facts(t)
+	recs0 := e.userRecords()
+	cls, err := e.attestOne(t, e.ctx, m.id)
+	h.oracleRecords(recs0, e.userRecords(), []*bodyT{b}, []uint64{m.id})
+	eff := diffFacts(f0, e.facts(t))
+	h.effects = append(h.effects, eff...)
+	sp := h.spawnedSince(before)
+	h.logf("attest id=%d -> class %d (%v) effects=%v spawned=%d", m.id, cls, err, eff, len(sp))
+	run.Count("B.op", "attest")
+	run.Count("B.attest", fmt.Sprintf("kind=%d winner=%d class=%d", b.Kind, w.kind, cls))
+	if w.kind == 1 && w.status == 1 && !was && (cls == 1) == matches(b, m.id, h.gas[m.id], vs, h.sigs[m.id], w.tx.spec) {
+		cm, _ := m.raw.ConsensusMsg(e.f.Codec)
+		t.Logf("DISAGREE id=%d cls=%d kind=%d gas=%d/%d vsid=%d nsigs=%d/%d pad=%v stored=%+v", m.id, cls, b.Kind, h.gas[m.id], m.raw.GetGasEstimate(), h.vsid[m.id], len(h.sigs[m.id]), len(m.raw.GetSignData()), m.raw.GetPublicAccessData(), cm)
+	}
+	h.oracle(m.id, b, w, cls, vs, eff, was)
+	h.oracleUnagreed(m.id, b, w, cls, h.ids()[m.id])
+	if w.kind == 2 {
+		h.oracleErrorProof(m.id, b, cls, sp)
+	}
+	e.checkSnapshot(t)
+	if w.kind == 1 && (cls == 1 || cls == 2) { // refused for good: count what the relayer's metrix record says (observation only:
+		// the record is not one of the success effects the property lists; the model follows the code and X compares it)
+		for _, rr := range h.observe(cls).relay {
+			if rr[0] == int64(m.id) {
+				run.Count("B.relay-record-for-refused-tx", fmt.Sprintf("success=%v", rr[1] == 1))
+			}
+		}
+	}
+	h.record(fmt.Sprintf("C07.XAttest %d %s", m.id, coqSpawn(sp, cls != 4)), cls)
+	return cls
+}
+
+// ---------- scripted pieces shared by the scenarios ----------
+
+func (h *history) msgByID(id uint64) (qmsg, bool) {
+	for _, m := range h.e.queued(h.t) {
+		if m.id == id {
+			return m, true
+		}
+	}
+	return qmsg{}, false
+}
+
+// put: the harness queues a message of its own on the body's chain
+func (h *history) put(b *bodyT) uint64 {
+	e := h.e
+	id, err := e.f.ConsensusKeeper.PutMessageInQueue(e.ctx, e.queues[b.Chain], b.message(e.chains[b.Chain], e.vals[0].addr.String()), &consensus.PutOptions{RequireSignatures: true, RequireGasEstimation: true})
+	if err != nil {
+		h.t.Fatalf("PutMessageInQueue: %v", err)
+	}
+	h.noteID(id)
+	h.known[id] = b
+	h.logf("enqueue id=%d kind=%d key=%d chain=%d", id, b.Kind, b.Key, b.Chain)
+	h.record("C07.XEnqueue "+b.coq(), 0)
+	return id
+}
+
+// replaceBody: the body of a queued message is replaced under the same id (fees set after the estimate election)
+func (h *history) replaceBody(id uint64, b *bodyT) {
+	e := h.e
+	if _, err := e.f.ConsensusKeeper.PutMessageInQueue(e.ctx, e.queues[b.Chain], b.message(e.chains[b.Chain], e.vals[0].addr.String()), &consensus.PutOptions{MsgIDToReplace: id}); err != nil {
+		h.t.Fatal(err)
+	}
+	h.known[id] = b
+	h.logf("replace id=%d", id)
+	h.record(fmt.Sprintf("C07.XReplace %d %s", id, b.coq()), 0)
+}
+
+func (h *history) publicAccess(id uint64, vid uint64) {
+	e := h.e
+	qn := e.queues[h.known[id].Chain]
+	if err := e.f.ConsensusKeeper.SetMessagePublicAccessData(e.ctx, e.vals[0].addr, &consensustypes.MsgSetPublicAccessData{MessageID: id, QueueTypeName: qn, Data: []byte{1}, ValsetID: vid}); err != nil {
+		h.t.Fatal(err)
+	}
+	if _, set := h.vsid[id]; !set {
+		h.vsid[id] = vid
+	}
+	h.logf("public access id=%d valset=%d", id, vid)
+	h.record(fmt.Sprintf("C07.XValset %d %d", id, vid), 0)
+}
+
+func (h *history) signBy(id uint64, k int) {
+	e := h.e
+	m, ok := h.msgByID(id)
+	if !ok {
+		h.t.Fatalf("message %d not queued", id)
+	}
+	v := e.vals[k]
+	sg, err := e.sign(m.raw, v)
+	if err != nil {
+		h.t.Fatal(err)
+	}
+	qn := e.queues[h.known[id].Chain]
+	if err := e.f.ConsensusKeeper.AddMessageSignature(e.ctx, v.addr, []*consensustypes.ConsensusMessageSignature{{Id: id, QueueTypeName: qn, Signature: sg, SignedByAddress: v.eth.Hex()}}); err != nil {
+		h.t.Fatal(err)
+	}
+	h.sigs[id] = append(h.sigs[id], sigE{v.eth, sg})
+	h.logf("sign id=%d by v%d", id, k)
+	h.record(fmt.Sprintf("C07.XSign %d %s", id, emit.Pair(emit.ZI(addrID(v.eth)), emit.ZI(tab.id(sg)))), 0)
+}
+
+// the right transaction for a queued message: its call with the first i collected signatures
+func (h *history) rightTx(id uint64, i int, nonce uint64) *txInfo {
+	vs := vset{}
+	if vid := h.vsid[id]; vid != 0 {
+		vs, _ = h.e.snapVS(vid)
+	}
+	return h.addTx(h.known[id].correct(id, h.gas[id], vs, h.sigs[id], i), nonce)
+}
+
+func (h *history) everybodyReports(id uint64, x *txInfo, status int64) {
+	h.logf("evidence id=%d hash#%d status=%d by everybody", id, x.hashID, status)
+	h.submit(id, h.txReport(x, h.receipt(x, h.known[id], status, rvPlain)), h.run.Rng.Perm(len(h.e.vals)))
+}
+
+func (h *history) bumpHeight(d int64) {
+	h.e.ctx = h.e.ctx.WithBlockHeight(h.e.ctx.BlockHeight() + d).WithBlockTime(h.e.ctx.BlockTime().Add(time.Duration(d) * 6 * time.Second))
+	h.logf("height -> %d", h.e.ctx.BlockHeight())
+}
+
+func newScenario(t *testing.T, run *emit.Run, live, two bool) (*history, []string, uint64) {
+	r := run.Rng
+	e := newEnvChains(t, r, live, two)
+	h := &history{t: t, run: run, e: e, p: newPools(r), win: map[uint64]winInfo{}, reports: map[uint64][]valReport{}, known: map[uint64]*bodyT{}, usedTx: map[int64]uint64{}, done: map[uint64]bool{},
+		vsid: map[uint64]uint64{}, gas: map[uint64]uint64{}, sigs: map[uint64][]sigE{}}
+	var snaps []string
+	for _, id := range e.snaps {
+		v, _ := e.snapVS(id)
+		snaps = append(snaps, emit.Pair(emit.ZU(id), v.coq()))
+	}
+	for _, m := range e.queued(t) {
+		_ = e.q(t).Remove(e.ctx, m.id)
+		if len(e.queues) > 1 {
+			if qb, err := e.f.ConsensusKeeper.VerifC07Queue(e.ctx, e.queues[1]); err == nil {
+				_ = qb.Remove(e.ctx, m.id)
+			}
+		}
+	}
+	// first id the queue will hand out: probe by putting and removing one message
+	b := h.p.body(kSLC)
+	id, err := e.f.ConsensusKeeper.PutMessageInQueue(e.ctx, e.queue, b.message(chainName, e.vals[0].addr.String()), &consensus.PutOptions{RequireSignatures: true, RequireGasEstimation: true})
+	if err != nil {
+		t.Fatal(err)
+	}
+	if err := e.q(t).Remove(e.ctx, id); err != nil {
+		t.Fatal(err)
+	}
+	h.nextID = id + 1
+	h.evmMod = evmmodule.NewAppModule(e.f.Codec, *e.evm, nil, nil)
+	h.consMod = consensusmodule.NewAppModule(e.f.Codec, e.f.ConsensusKeeper, nil, nil)
+	h.logf("scenario env live=%v chains=%v snapshots=%v", live, e.chains, e.snaps)
+	return h, snaps, id + 1
+}
+
+func (h *history) finish(snaps []string, n0 uint64) {
+	h.run.Case(fmt.Sprintf("C07.CHistory %s %d %s %d %s", emit.List(snaps), n0, h.e.coqShares(), h.e.total, emit.List(h.steps)), true, map[string]any{"history": h.log})
+}
+
+// runUserTwice: ONE user contract deployed TWICE to the same chain.  The first deployment is settled (its message attested
+// with its transaction, or with an error proof beyond the retry limit) in the very block in which the second one is
+// requested (or, as a control, in another block); later the second message's own successful transaction is attested.
+// The success effect must land on the second message's own record: (contract, chain, height at which IT was put in flight).
+func runUserTwice(t *testing.T, run *emit.Run) {
+	r := run.Rng
+	h, snaps, n0 := newScenario(t, run, true, false)
+	e := h.e
+	author := e.vals[r.Intn(len(e.vals))].addr
+	cid, err := e.evm.SaveUserSmartContract(e.ctx, author.String(), &evmtypes.UserSmartContract{Title: "t", AbiJson: "[]", Bytecode: "0x6080", ConstructorInput: "0x"})
+	if err != nil {
+		t.Fatal(err)
+	}
+	var nonce uint64
+	deploy := func() (uint64, bool) {
+		before := h.ids()
+		nrec := len(e.userRecords())
+		_, derr := e.evm.CreateUserSmartContractDeployment(e.ctx, author.String(), cid, chainName)
+		h.logf("user contract %d: deployment requested at height %d (err=%v)", cid, e.ctx.BlockHeight(), derr)
+		if len(e.userRecords()) > nrec {
+			h.syncHeight()
+			h.recordKeep(fmt.Sprintf("C07.XUserDeploy %d 0", cid))
+		}
+		h.reconcile(before, "CreateUserSmartContractDeployment")
+		for id := range h.ids() {
+			if !before[id] {
+				return id, true
+			}
+		}
+		return 0, false
+	}
+	// settle: the message gets its fees, the relayer's valset, signatures, evidence, and is attested
+	settle := func(id uint64, ok bool) int {
+		b := *h.known[id]
+		b.Fees, b.NoFees = [3]uint64{h.p.fee(), h.p.fee(), h.p.fee()}, false
+		if !ok {
+			b.Retries = 2 // the last retry: an error proof now marks the deployment failed for good
+		}
+		h.replaceBody(id, &b)
+		h.publicAccess(id, e.snaps[len(e.snaps)-1])
+		signers := r.Perm(len(e.vals))[:1+r.Intn(3)]
+		for _, k := range signers {
+			h.signBy(id, k)
+		}
+		if ok {
+			nonce++
+			h.everybodyReports(id, h.rightTx(id, 1+r.Intn(len(signers)), nonce), 1)
+		} else {
+			h.logf("evidence id=%d error proof by everybody", id)
+			h.submit(id, h.errReport("boom"), r.Perm(len(e.vals)))
+		}
+		m, _ := h.msgByID(id)
+		return h.attestMsg(m)
+	}
+	m1, ok1 := deploy()
+	h.bumpHeight(1 + int64(r.Intn(3)))
+	firstOK := r.Intn(2) == 0
+	c1, c2 := -1, -1
+	if ok1 {
+		c1 = settle(m1, firstOK)
+	}
+	sameBlock := r.Intn(4) != 0
+	if !sameBlock {
+		h.bumpHeight(1)
+	}
+	m2, ok2 := deploy() // requested in the block in which the first one was settled
+	h.bumpHeight(1 + int64(r.Intn(3)))
+	if ok2 {
+		c2 = settle(m2, true)
+	}
+	if r.Intn(2) == 0 { // and once more
+		if m3, ok3 := deploy(); ok3 {
+			h.bumpHeight(1)
+			settle(m3, r.Intn(2) == 0)
+		}
+	}
+	run.Count("B.user-twice", fmt.Sprintf("first-ok=%v same-block=%v classes=%d/%d", firstOK, sameBlock, c1, c2))
+	h.finish(snaps, n0)
+}
+
+// runSameTx: ONE remote transaction offered to TWO messages, for every action type.  Two messages with the same action are
+// queued (for update_valset, the handover and the compass upload the expected call carries no message id: the very same call
+// data; for the upload also as a roll-out of one contract to TWO chains in the same block), signed by the same validators,
+// the first one's transaction is accepted, then handed in for the second (must be refused: already used), then the second
+// gets a transaction of its own.
+func runSameTx(t *testing.T, run *emit.Run, variant int) {
+	r := run.Rng
+	two := variant == 2
+	h, snaps, n0 := newScenario(t, run, variant != 2 || r.Intn(2) == 0, two)
+	e := h.e
+	var b1, b2 *bodyT
+	mk := func(kind int) *bodyT {
+		b := h.p.body(kind)
+		b.Relayer = e.vals[0].eth.Hex()
+		return b
+	}
+	compassDeployment := func(code []byte, chains ...int) uint64 {
+		sc, err := e.evm.SaveNewSmartContract(e.ctx, compassABIJSON, code)
+		if err != nil {
+			t.Fatal(err)
+		}
+		for _, ci := range chains {
+			info, err := e.evm.GetChainInfo(e.ctx, e.chains[ci])
+			if err != nil {
+				t.Fatal(err)
+			}
+			e.evm.VerifC07CreateDeployment(e.ctx, sc, info, []byte(fmt.Sprintf("uid-%d", e.ctx.BlockHeight()))) // unique id = block height: the same on every chain
+		}
+		return sc.Id
+	}
+	name := ""
+	switch variant {
+	case 0: // compass handover, same forwarded calls / deadline; first a compass upload is accepted, so that a deployment waits for the handover
+		name = "handover"
+		b0 := mk(kUploadCompass)
+		b0.Key = compassDeployment(b0.Bytecode, 0)
+		id0 := h.put(b0)
+		h.everybodyReports(id0, h.rightTx(id0, 0, 7), 1)
+		if m0, ok := h.msgByID(id0); ok {
+			h.attestMsg(m0)
+		}
+		for _, m := range e.queued(t) { // the handover the keeper scheduled itself is not the subject here
+			_ = e.q(t).Remove(e.ctx, m.id)
+			h.logf("removed id=%d", m.id)
+			delete(h.known, m.id)
+			h.record(fmt.Sprintf("C07.XRemove %d", m.id), 0)
+		}
+		b1 = mk(kHandover)
+		b1.Key = b0.Key
+		c := *b1
+		b2 = &c
+	case 1: // two compass contracts with the same code, both in flight on one chain
+		name = "upload-same-chain"
+		b1 = mk(kUploadCompass)
+		b1.Key = compassDeployment(b1.Bytecode, 0)
+		c := *b1
+		b2 = &c
+		b2.Key = compassDeployment(b1.Bytecode, 0)
+	case 2: // one compass contract rolled out to two chains in the same block
+		name = "upload-two-chains"
+		b1 = mk(kUploadCompass)
+		b1.Key = compassDeployment(b1.Bytecode, 0, 1)
+		c := *b1
+		b2 = &c
+		b2.Chain = 1
+	case 3:
+		name = "logic-call"
+		b1 = mk(kSLC)
+		c := *b1
+		b2 = &c
+	default: // user contract upload: the keeper's own message for a real deployment, and a copy of it
+		name = "user-upload"
+	}
+	var id1, id2 uint64
+	if variant >= 4 {
+		// two user contracts, each deployed to the chain in this block: the keeper's own two upload messages
+		deploy := func() uint64 {
+			author := e.vals[r.Intn(len(e.vals))].addr
+			cid, err := e.evm.SaveUserSmartContract(e.ctx, author.String(), &evmtypes.UserSmartContract{Title: "t", AbiJson: "[]", Bytecode: "0x6080", ConstructorInput: "0x"})
+			if err != nil {
+				t.Fatal(err)
+			}
+			before := h.ids()
+			if _, err := e.evm.CreateUserSmartContractDeployment(e.ctx, author.String(), cid, chainName); err != nil {
+				t.Fatal(err)
+			}
+			h.syncHeight()
+			h.recordKeep(fmt.Sprintf("C07.XUserDeploy %d 0", cid))
+			h.reconcile(before, "CreateUserSmartContractDeployment")
+			for id := range h.ids() {
+				if !before[id] {
+					b := *h.known[id]
+					b.Fees, b.NoFees = [3]uint64{h.p.fee(), h.p.fee(), h.p.fee()}, false
+					h.replaceBody(id, &b)
+					return id
+				}
+			}
+			t.Fatal("the keeper queued no upload message")
+			return 0
+		}
+		id1, id2 = deploy(), deploy()
+	} else {
+		id1, id2 = h.put(b1), h.put(b2)
+	}
+	vid := e.snaps[r.Intn(len(e.snaps))]
+	signers := r.Perm(len(e.vals))[:1+r.Intn(3)]
+	for _, id := range []uint64{id1, id2} {
+		h.publicAccess(id, vid)
+		for _, k := range signers {
+			h.signBy(id, k)
+		}
+	}
+	i := 1 + r.Intn(len(signers))
+	x1 := h.rightTx(id1, i, 1)
+	attest := func(id uint64) int {
+		m, ok := h.msgByID(id)
+		if !ok {
+			return -1
+		}
+		return h.attestMsg(m)
+	}
+	h.everybodyReports(id1, x1, 1)
+	c1 := attest(id1)
+	if r.Intn(3) == 0 {
+		h.bumpHeight(1 + int64(r.Intn(400)))
+	}
+	h.everybodyReports(id2, x1, 1) // the transaction of the first message, for the second
+	c2 := attest(id2)
+	c3 := -1
+	if _, still := h.msgByID(id2); still {
+		h.everybodyReports(id2, h.rightTx(id2, i, 2), 1)
+		c3 = attest(id2)
+	}
+	run.Count("B.same-tx", fmt.Sprintf("%s first=%d same=%d own=%d", name, c1, c2, c3))
+	h.finish(snaps, n0)
+}
 
 // endBlock: the attestation loop of the consensus end-blocker.  full=false calls the public
 // CheckAndProcessAttestedMessages; full=true calls the consensus module's EndBlock (estimates,
@@ -2206,6 +2723,7 @@ func (h *history) endBlock(full bool) {
 		}
 	}
 	before, f0 := h.ids(), e.facts(t)
+	recs0 := e.userRecords()
 	var err error
 	real := e.ctx
 	if full {
@@ -2217,6 +2735,14 @@ func (h *history) endBlock(full bool) {
 		err = e.f.ConsensusKeeper.CheckAndProcessAttestedMessages(e.ctx)
 	}
 	f1 := e.facts(t)
+	{
+		var bs []*bodyT
+		var is []uint64
+		for _, x := range ps {
+			bs, is = append(bs, h.known[x.m.id]), append(is, x.m.id)
+		}
+		h.oracleRecords(recs0, e.userRecords(), bs, is)
+	}
 	eff := diffFacts(f0, f1)
 	h.effects = append(h.effects, eff...)
 	h.spawnedSince(before)
@@ -2231,7 +2757,7 @@ func (h *history) endBlock(full bool) {
 	pool := append([][2]int64{}, eff...)
 	take := func(b *bodyT) [][2]int64 {
 		for i, y := range pool {
-			if y[0] == int64(b.Kind) && y[1] == int64(b.Key) {
+			if y[0] == int64(b.Kind) && y[1] == int64(b.Key)+1000*int64(b.Chain) {
 				pool = append(pool[:i], pool[i+1:]...)
 				return [][2]int64{y}
 			}
@@ -2357,8 +2883,15 @@ func (h *history) advance() {
 	h.logf("advance %d blocks -> height %d", d, nh)
 	h.run.Count("B.advance", fmt.Sprint(d))
 	before := h.ids()
+	recs0 := e.userRecords()
 	if err := h.evmMod.EndBlock(e.ctx); err != nil {
 		h.t.Fatalf("evm EndBlock: %v", err)
+	}
+	if recs1 := e.userRecords(); coqUrecs(recs0) != coqUrecs(recs1) { // stale user contracts purged
+		h.syncHeight()
+		h.logf("evm end-blocker changed the user deployment records: %d -> %d", len(recs0), len(recs1))
+		h.run.Count("B.op", "user-contracts-purged")
+		h.recordKeep("C07.XUserSync " + coqUrecs(recs1))
 	}
 	h.reconcile(before, "evm end-blocker")
 	h.syncIDs()
@@ -2515,11 +3048,16 @@ func TestCorr(t *testing.T) {
 			k++
 		}
 		partA(t, run, k)
-		if i%8 == 7 {
+		switch i % 8 {
+		case 7:
 			runTwin(t, run)
-			continue
+		case 3:
+			runUserTwice(t, run)
+		case 5:
+			runSameTx(t, run, (i/8)%5)
+		default:
+			runHistory(t, run, i)
 		}
-		runHistory(t, run, i)
 	}
 	if err := run.Finish("Evm.Attest Corr.C07", "C07.case", "C07.check"); err != nil {
 		t.Fatal(err)
